@@ -256,8 +256,8 @@ PROPS['C05'] = dict(
     gen=EQV_ALL, eqv=EQV_ALL, corr=corr_generated(['Axis', 'R1d', 'R2', 'R3']), oracle=oracle_multi(oracles.oracle_C05, lambda objs, st: oracles.oracle_helicity_kernel(st, 5, 12)),
     rule=RULE, partial=EQV_PARTIAL + ['the first-order solve: the cyclically shifted solution (same iota, sigma0 taken at the new origin) solves the shifted discrete sigma equation - proved for the generated residual and the concrete d/dvarphi matrix with its (shifted) non-constant weight (C05Sigma, C06Sigma); that Newton FINDS that root from the shifted initial guess is the measured part (the oracle checks both descriptions converge to it)', 'phi, varphi and (for helicity != 0) the *_untwisted coefficients are coordinate-dependent: they follow explicit laws (checked by the oracle), not a cyclic shift'])
 PROPS['C06'] = dict(
-    lean=['QscProofs.Eqv', 'QscProofs.C13', 'QscProofs.EqvGrid', 'QscProofs.C06Sigma', 'QscProofs.C13Cyc'], theorems=eqv_theorems(EQV_ALL) + ['C06Sigma.' + t for t in ('gridDw_rep', 'residual_repetition_covariant', 'solution_repetition', 'residual_repetition_covariant_grid', 'solution_repetition_grid', 'resForm_repetition')] + ['C13.counter_mul_four', 'EqvGrid.toep_rep', 'EqvGrid.sum_comp_modNat', 'EqvGrid.linearMap_eq_zero_of_modes', 'EqvGrid.curvature_repetition', 'EqvGrid.X2c_repetition', 'EqvGrid.DMerc_times_r2_repetition', 'C13Cyc.counter_rep', 'C13Cyc.helicity_repetition', 'C13Cyc.helicity_nfp_invariant'],
-    gen=EQV_ALL, eqv=EQV_ALL, corr=corr_merge(corr_generated(['Axis', 'R1d', 'R2']), corr_hand_kernels(['helicity'])), oracle=oracle_multi(oracles.oracle_C06, lambda objs, st: oracles.oracle_helicity_kernel(st, 6), count=6),
+    lean=['QscProofs.Eqv', 'QscProofs.C13', 'QscProofs.EqvGrid', 'QscProofs.C06Sigma', 'QscProofs.C13Cyc', 'QscProofs.C06Axis'], theorems=eqv_theorems(EQV_ALL) + ['C06Sigma.' + t for t in ('gridDw_rep', 'residual_repetition_covariant', 'solution_repetition', 'residual_repetition_covariant_grid', 'solution_repetition_grid', 'resForm_repetition')] + ['C13.counter_mul_four', 'EqvGrid.toep_rep', 'EqvGrid.sum_comp_modNat', 'EqvGrid.linearMap_eq_zero_of_modes', 'EqvGrid.curvature_repetition', 'EqvGrid.X2c_repetition', 'EqvGrid.DMerc_times_r2_repetition', 'C13Cyc.counter_rep', 'C13Cyc.helicity_repetition', 'C13Cyc.helicity_nfp_invariant', 'C06Axis.sumRange_interleave', 'C06Axis.f0_interleave', 'C06Axis.f1_interleave', 'C06Axis.f2_interleave', 'C06Axis.f3_interleave'],
+    gen=EQV_ALL, eqv=EQV_ALL, corr=corr_merge(corr_generated(['Axis', 'R1d', 'R2']), corr_hand_kernels(['helicity', 'axis'])), oracle=oracle_multi(oracles.oracle_C06, lambda objs, st: oracles.oracle_helicity_kernel(st, 6), count=6),
     rule=RULE + '; nfp = k compared with nfp = 1 at k*nphi for odd k', partial=EQV_PARTIAL)
 PROPS['C07'] = dict(
     lean=['QscProofs.Eqv', 'QscProofs.C15', 'QscProofs.C13', 'QscProofs.C13Cyc', 'QscProofs.C20Spec', 'QscProofs.EqvGrid', 'QscProofs.C05Sigma', 'QscProofs.C06Sigma'], theorems=eqv_theorems(EQV_ALL) + ['C05Sigma.' + t for t in ('residual_reversal_covariant', 'solution_reversal', 'residual_mirror_covariant', 'residual_reversal_mirror_covariant', 'gridD_anticomm_rev', 'residual_reversal_covariant_grid')] + ['C06Sigma.gridDw_anticomm_rev', 'C06Sigma.residual_reversal_covariant_gridw'] + ['EqvGrid.toep_neg', 'EqvGrid.curvature_reversal', 'EqvGrid.X2c_reversal', 'EqvGrid.Z2c_reversal', 'EqvGrid.d2_l_d_phi2_reversal', 'EqvGrid.DMerc_times_r2_reversal', 'C15.lasym_iff', 'C15.lasym_false_iff', 'C13.counter_flipZ', 'C13.counter_reverse', 'C13Cyc.counter_field_reversal', 'C20Spec.toep_antisymm'],
